@@ -1248,6 +1248,20 @@ pub mod verif {
         })
     }
 
+    /// Store an entry in the artifact's table through the real access layer.
+    pub fn artifact_insert(artifact: &SearchArtifact, key: u64, e: EntryTuple) {
+        artifact.transpositions.insert(
+            key,
+            TranspositionEntry {
+                kind: kind_of(e.0),
+                performed_move: move_from_raw(e.1),
+                depth: e.2,
+                max_depth: e.3,
+                evaluation: eval::Evaluation::from(e.4),
+            },
+        );
+    }
+
     /// Every occupied slot of the artifact's table: (key, entry).
     pub fn artifact_dump(artifact: &SearchArtifact) -> Vec<(u64, EntryTuple)> {
         let mut out = Vec::new();
